@@ -39,7 +39,13 @@ def calls_to(ana: Analysis, fi: FuncInfo, pred) -> List[CallSite]:
         if not isinstance(cs.node, ast.Call) or cs.indirect:
             continue
         name = callee_fq(cs)
-        if (pred(name) if callable(pred) else name == pred):
+        if not callable(pred):
+            # a reference helper that lives on under another name (Program.match_renamed) may be asked for by either name
+            back = {v: k for k, v in getattr(ana.prog, "renamed", {}).items()}
+            if name == pred or back.get(name, name) == pred:
+                out.append(cs)
+            continue
+        if pred(name):
             out.append(cs)
     return out
 
